@@ -164,7 +164,14 @@ def replay(ctx, doc):
     try:
         t = os.path.join(root, "tmpl")
         os.makedirs(t)
-        runner.run_cases([{"id": "t", "ops": [{"op": "create", "schema": r["schema"], "dir": t}, {"op": "release_all"}]}], cfg="plain")
+        ops = [{"op": "create", "schema": r["schema"], "dir": t}]
+        if r.get("populated"):
+            from .. import gen_snap as GS
+            for j in range(3):
+                ops.append({"op": "create_track", "as": "t%d" % j, "snap": GS.gen_snapshot(ctx.rng, r["schema"], rich=True, hostile_sentinels=False)})
+            ops += [{"op": "create_root_crate", "name": GS.hx("A"), "as": "cA"}, {"op": "create_sub_crate", "c": "cA", "name": GS.hx("B"), "as": "cB"},
+                    {"op": "add_track", "c": "cA", "t": "t0"}, {"op": "add_track", "c": "cB", "t": "t1"}, {"op": "add_track", "c": "cB", "t": "t2"}]
+        runner.run_cases([{"id": "t", "ops": ops + [{"op": "release_all"}]}], cfg="plain")
         c = os.path.join(root, "copy")
         kept, why = _prepare((t, c, r["file"], tuple(r["mutation"])))
         if not kept:
